@@ -17,6 +17,7 @@ package conv_test
 
 import (
 	"bytes"
+	"crypto"
 	"fmt"
 	"math/big"
 	"reflect"
@@ -29,6 +30,7 @@ import (
 	"github.com/cloudflare/circl/ecc/bls12381/ff"
 	"github.com/cloudflare/circl/ecc/fourq"
 	"github.com/cloudflare/circl/ecc/goldilocks"
+	"github.com/cloudflare/circl/expander"
 	"github.com/cloudflare/circl/group"
 	"github.com/cloudflare/circl/hpke"
 	"github.com/cloudflare/circl/internal/verifmc"
@@ -44,6 +46,7 @@ import (
 	signschemes "github.com/cloudflare/circl/sign/schemes"
 	"github.com/cloudflare/circl/vdaf/prio3/arith/fp128"
 	"github.com/cloudflare/circl/vdaf/prio3/arith/fp64"
+	"github.com/cloudflare/circl/xof"
 )
 
 type c11Mut struct {
@@ -571,12 +574,56 @@ func c11HpkeAndSharingAccessors() []*c11Acc {
 	return out
 }
 
+// XOF clones and reusable expanders: a clone is independent of its origin and of other clones;
+// an expander object gives the same output for the same input however it was used before.
+func c11XofAccessors() []*c11Acc {
+	var out []*c11Acc
+	prefix, suffix := verifmc.Shake("c11-xof-prefix", 300), verifmc.Shake("c11-xof-suffix", 40)
+	for _, id := range []xof.ID{xof.SHAKE128, xof.SHAKE256, xof.BLAKE2XB, xof.BLAKE2XS, xof.K12D10} {
+		id := id
+		base := id.New()
+		_, _ = base.Write(prefix)
+		fam := fmt.Sprintf("xof:%v", id)
+		view := func(o interface{}) []byte { // never touches o itself
+			c := o.(xof.XOF).Clone()
+			_, _ = c.Write(suffix)
+			b := make([]byte, 64)
+			_, _ = c.Read(b)
+			return b
+		}
+		out = append(out, &c11Acc{fam, "Clone", func() interface{} { return base.Clone() }, view, []c11Mut{
+			{"Write(more)", func(o interface{}) { _, _ = o.(xof.XOF).Write(verifmc.Shake("c11-xof-more", 9000)) }},
+			{"Read(200)", func(o interface{}) { _, _ = o.(xof.XOF).Read(make([]byte, 200)) }},
+			{"Reset", func(o interface{}) { o.(xof.XOF).Reset() }},
+			{"Clone().Write", func(o interface{}) { _, _ = o.(xof.XOF).Clone().Write(suffix) }},
+		}})
+	}
+	msg := verifmc.Shake("c11-exp-msg", 50)
+	expView := func(o interface{}) []byte { return o.(expander.Expander).Expand(msg, 70) }
+	expMuts := []c11Mut{
+		{"Expand(other,200)", func(o interface{}) { o.(expander.Expander).Expand(verifmc.Shake("c11-exp-other", 333), 200) }},
+		{"Expand+scribble", func(o interface{}) { c11Scr(o.(expander.Expander).Expand(msg, 70)) }},
+	}
+	md := expander.NewExpanderMD(crypto.SHA256, []byte("c11 expander dst"))
+	mdLong := expander.NewExpanderMD(crypto.SHA512, verifmc.Shake("c11-exp-longdst", 300))
+	xo := expander.NewExpanderXOF(xof.SHAKE128, 128, []byte("c11 expander dst"))
+	xoLong := expander.NewExpanderXOF(xof.SHAKE256, 256, verifmc.Shake("c11-exp-longdst", 300))
+	out = append(out,
+		&c11Acc{"expander", "ExpanderMD(reused object)", func() interface{} { return md }, expView, expMuts},
+		&c11Acc{"expander", "ExpanderMD(long dst, reused object)", func() interface{} { return mdLong }, expView, expMuts},
+		&c11Acc{"expander", "ExpanderXOF(reused object)", func() interface{} { return xo }, expView, expMuts},
+		&c11Acc{"expander", "ExpanderXOF(long dst, reused object)", func() interface{} { return xoLong }, expView, expMuts},
+	)
+	return out
+}
+
 func c11AllAccessors() []*c11Acc {
 	var all []*c11Acc
 	all = append(all, c11GroupAccessors()...)
 	all = append(all, c11CurveAccessors()...)
 	all = append(all, c11KeyAccessors()...)
 	all = append(all, c11HpkeAndSharingAccessors()...)
+	all = append(all, c11XofAccessors()...)
 	return all
 }
 
@@ -637,7 +684,7 @@ func c11RunObjects(t *testing.T, r *verifmc.Run, indep bool) {
 		for ai, a := range list {
 			for _, m := range a.muts {
 				caseID := fam + "|" + a.name + "|" + m.name
-				if !r.Want(caseID) {
+				if r.Replaying() && r.ReplayCase() != caseID {
 					continue
 				}
 				r.Eval(1)
